@@ -526,6 +526,9 @@ def _convergence(ctx):
                                  text="retry only if nothing converged in " + name)
                 elif ok:
                     ctx.holds(f, tests[0], "%s: converged flags inspected, non-converged entries retried, root array returned" % name)
+                elif _flags_consumed_otherwise(f, var):
+                    # the same consumption written with unpacked locals and an early return when everything converged
+                    ctx.holds(f, st, "%s: converged flags inspected (through a local), non-converged entries retried" % name)
                 else:
                     ctx.violated(f, st, "%s requests full_output but does not inspect the converged flags and retry" % name)
             else:
@@ -768,6 +771,46 @@ def _cache(ctx):
                 ctx.holds(f, f.node, "%s.K setter goes through the rebuilding setter" % ci.name)
             else:
                 ctx.violated(f, f.node, "%s.K setter neither sets _K with a rebuild nor delegates to the rebuilding setter" % ci.name)
+
+
+def _flags_consumed_otherwise(f, var):
+    """`values, converged = r[0], r[1]` (or separate assignments); a test on `converged` that is not of the none-converged form;
+    a call of the retry helper that receives the flags; every return yields the root array (values / r[0]) or element 0 of the
+    retry helper's result"""
+    flag_names, val_names = set(), set()
+    for st in walk_function(f.node):
+        if isinstance(st, ast.Assign):
+            from ..astutil import tuple_assign_pairs
+            for t, v in tuple_assign_pairs(st):
+                if isinstance(t, ast.Name) and isinstance(v, ast.Subscript) and isinstance(v.value, ast.Name) and v.value.id == var:
+                    if const_value(v.slice) == 1:
+                        flag_names.add(t.id)
+                    elif const_value(v.slice) == 0:
+                        val_names.add(t.id)
+    if not flag_names:
+        return False
+    tests = [s_ for s_ in walk_function(f.node) if isinstance(s_, ast.If) and any(isinstance(n_, ast.Name) and n_.id in flag_names for n_ in ast.walk(s_.test))]
+    if not tests:
+        return False
+    for t_ in tests:
+        tt = t_.test
+        neg = False
+        while isinstance(tt, ast.UnaryOp) and isinstance(tt.op, ast.Not):
+            tt, neg = tt.operand, not neg
+        if isinstance(tt, ast.Call) and ((call_name(tt) or "") in ("np.any", "any") or (isinstance(tt.func, ast.Attribute) and tt.func.attr == "any")) and neg:
+            return False                  # `not any(converged)`: retry only if nothing converged
+    retry = [c for c in calls_in(f.node) if isinstance(c.func, ast.Attribute) and "not_converged" in c.func.attr and
+             any(isinstance(n_, ast.Name) and (n_.id in flag_names or n_.id == var) for a_ in c.args for n_ in ast.walk(a_))]
+    if not retry:
+        return False
+    for r in [s_ for s_ in walk_function(f.node) if isinstance(s_, ast.Return) and s_.value is not None]:
+        v = r.value
+        if isinstance(v, ast.Name) and v.id in val_names:
+            continue
+        if isinstance(v, ast.Subscript) and const_value(v.slice) == 0:
+            continue
+        return False
+    return True
 
 
 def _retry_quantifier(test, var):
